@@ -28,7 +28,14 @@ def replay (j : Json) : R Verdict := do
               ("C01", "a guess that does not conform to the spec was accepted") :: pf
       match model with
       | .ok mv => if mv != v then dis := some "accepted values differ"
-      | .error e => dis := some s!"impl accepts, model rejects ({repr e})"
+      | .error e =>
+        dis := some s!"impl accepts, model rejects ({repr e})"
+        -- a guess built from a conforming value by ONE defect (wrong array length, size out of bounds, unknown
+        -- key / option, out-of-bounds number ...) does not conform by construction: accepting it fails C11
+        match (fieldD j "defect").getStr?.toOption with
+        | some d => if kind == "value-defect" then
+            pf := ("C11", s!"a guess that does not conform to the spec ({d}) was accepted") :: pf
+        | none => pure ()
       -- serialising the accepted value again
       let backJ := fieldD imp "back"
       if backJ.isNull then
